@@ -1156,7 +1156,9 @@ fn td_to_render_tree<'a, T: Write>(
         for attr in attrs.borrow().iter() {
             if &attr.name.local == "colspan" {
                 let v: &str = &attr.value;
-                colspan = v.parse().unwrap_or(1);
+                // The HTML spec clamps colspan to 1000; this also keeps the
+                // column arithmetic from overflowing.
+                colspan = v.parse::<usize>().unwrap_or(1).min(1000);
             }
         }
     }
